@@ -187,10 +187,14 @@ pub fn apply_mut<G: AffineRepr>(p: &mut ProofParts<G>, m: &Mutation<G::ScalarFie
     }
 }
 
-pub struct CaseOut {
+pub struct CaseOut<G: AffineRepr> {
     pub coq: String,
     pub obs: String,
     pub summary: String,
+    pub vproof: Option<R1CSProof<G>>,
+    pub commitments: Vec<G>,
+    pub chal_v: Vec<G::ScalarField>,
+    pub verdict: u64,
 }
 
 fn enc_tr(log: &TrLog) -> Vec<String> {
@@ -233,7 +237,7 @@ fn enc_events(evs: &[Event]) -> (Vec<String>, Vec<Vec<u8>>) {
     (out, pts)
 }
 
-pub fn run_case<G: AffineRepr>(c: &R1csCase<G>, curve: &str, modulus: &str) -> CaseOut {
+pub fn run_case<G: AffineRepr>(c: &R1csCase<G>, curve: &str, modulus: &str) -> CaseOut<G> {
     type F<G> = <G as AffineRepr>::ScalarField;
     let cap_basis = c.cap_p.max(c.cap_v).max(1);
     let basis = make_basis::<G>(cap_basis, c.extra);
@@ -263,6 +267,9 @@ pub fn run_case<G: AffineRepr>(c: &R1csCase<G>, curve: &str, modulus: &str) -> C
     let draws: Vec<F<G>> = draws_from_bytes::<F<G>>(&pr.log.rng_out);
     let chal_p: Vec<F<G>> = chals::<F<G>>(&pr.log);
     let mut chal_v: Vec<F<G>> = vec![];
+    let mut out_vproof: Option<R1CSProof<G>> = None;
+    let mut out_commitments: Vec<G> = vec![];
+    let mut out_verdict: u64 = 1;
     let mut summary = format!("{} {} tag={} prover={}", id, curve, c.tag, pcode);
     if !c.model {
         summary = format!("{} {} nomodel=1 tag={} prover={}", id, curve, c.tag, pcode);
@@ -310,6 +317,8 @@ pub fn run_case<G: AffineRepr>(c: &R1csCase<G>, curve: &str, modulus: &str) -> C
         match vproof {
             None => line(97, vec!["mutated-proof-does-not-decode".into()]),
             Some(vproof) => {
+                out_vproof = Some(vproof.clone());
+                out_commitments = commitments.clone();
                 let vr = run_verifier::<G>(c.vlabel, &vprog, &commitments, &vproof, &pcv, &bp_v);
                 let (ev1, _) = enc_events(&vr.events1);
                 line(10, ev1);
@@ -322,6 +331,7 @@ pub fn run_case<G: AffineRepr>(c: &R1csCase<G>, curve: &str, modulus: &str) -> C
                     line(14, enc_tr(&vr.log_scalars));
                 }
                 let vcode = result_code(&vr.verdict);
+                out_verdict = vcode;
                 line(15, vec![vcode.to_string()]);
                 if vr.verdict.is_err() || vr.scalars.is_err() {
                     let _ = writeln!(obs.borrow_mut(), "{} 98 {}", id, vr.panic_msg.replace('\n', " "));
@@ -335,7 +345,7 @@ pub fn run_case<G: AffineRepr>(c: &R1csCase<G>, curve: &str, modulus: &str) -> C
     let mut coq = String::new();
     if !c.model {
         let obs = obs.into_inner();
-        return CaseOut { coq, obs, summary };
+        return CaseOut { coq, obs, summary, vproof: out_vproof, commitments: out_commitments, chal_v, verdict: out_verdict };
     }
     let bytes = |b: &[u8]| bytes_coq(b);
     let _ = writeln!(coq, "Definition {} : r1cs_case := mkCase", id);
@@ -373,7 +383,7 @@ pub fn run_case<G: AffineRepr>(c: &R1csCase<G>, curve: &str, modulus: &str) -> C
     let ms: Vec<String> = c.muts.iter().map(|m| m.coq()).collect();
     let _ = writeln!(coq, "  [{}].", ms.join("; "));
     let obs = obs.into_inner();
-    CaseOut { coq, obs, summary }
+    CaseOut { coq, obs, summary, vproof: out_vproof, commitments: out_commitments, chal_v, verdict: out_verdict }
 }
 
 /// quick/thorough case streams for the r1cs component
